@@ -221,6 +221,39 @@ def prepass_influence(R, rep):
             rep.ob("R2", "C11:" + o["instance"], o["ok"], o["detail"], o["site"], key="R2:C11:" + o["instance"])
 
 
+REORDERING = ("reverse", "rotate_left", "rotate_right", "swap", "swap_remove", "sort_unstable", "sort_unstable_by", "sort_unstable_by_key",
+              "select_nth_unstable", "select_nth_unstable_by", "select_nth_unstable_by_key", "rev", "shuffle")
+
+
+def only_stable_reordering(R, rep, rule="R4"):
+    """R4 (also): between the caller's list and the day loop the ONLY reordering of the transaction list is the stable sort by date. A
+    `reverse`, `rotate`, `swap` or `rev()` of the list — typically behind a test on the shape of the whole list ("the export is newest
+    first, flip it") — arranges the lines of an earlier day differently once later lines are appended and the shape test no longer holds:
+    the first-come claims on same-day lots change, and with them an earlier year's legs (seeded change C12-s9)."""
+    import re as _re
+    from mir import parse_callee
+    F = R.F
+    canon = R.require("canon")
+    region = [canon] + [c for c in F.bodies.values() if c.kind == "closure" and c.id.startswith(canon.id + "::")]
+    region += [F.bodies[c] for c in F.callgraph().get(canon.id, ()) if c in F.bodies and F.bodies[c].crate == "cgt_core" and "::matcher" in c and F.bodies[c] not in region]
+    bad, n = [], 0
+    for b in region:
+        for i, t in b.calls():
+            aty = t.get("aty") or []
+            if not aty or not _re.search(r"(Vec(Deque)?<|\[)(&)?(cgt_core::models::Transaction|cgt_core::models::GbpTransaction|cgt_core::\S*Transaction)", aty[0]):
+                continue
+            n += 1
+            m = parse_callee(t["callee"])[2]
+            if m in REORDERING:
+                bad.append((b, t, m))
+    rep.ob(rule, "canon:only-stable-reordering", not bad, f"{n} calls on the transaction list in the canonicaliser, the stable sort is the only one that reorders it" if not bad else
+           "; ".join(f"`{b.short}` calls `{m}` on the transaction list" for b, t, m in bad[:3]) + ": the arrangement of an earlier day's lines then depends on the whole "
+           "list (its shape or length), not on those lines alone — appending later lines can change an earlier year's legs",
+           bad[0][0].loc(bad[0][1]["sp"]) if bad else canon.loc(), key=f"{rule}:canon:reordered")
+    if n < 1:
+        rep.unresolved(rule, "canon-calls", "no call on the transaction list found in the canonicaliser (the sort was expected)")
+
+
 def run(ctx, rep):
     R = Roles(ctx.F)
     bounded_lookahead(R, rep)
@@ -241,6 +274,7 @@ def run(ctx, rep):
     for v in r6.violations:
         if v["instance"].startswith("role:"):
             rep.ob("R4", v["instance"], False, v["detail"], v["site"], key="R4:" + v["instance"])
+    only_stable_reordering(R, rep)
     # an earlier year's dividend figures come from the aggregate filed under that year itself (shared with C04-R6): a summary that is
     # handed the figures of whichever year happens to follow changes when a later disposal is appended (seeded change C12-s8)
     import rules.c04 as c04
